@@ -804,7 +804,7 @@ func (tr *trans) ret(x *ssa.Return, st State) {
 					var errs3 []string
 					cenv.errs = &errs3
 					cons := cenv.elabBool(imp.Y)
-					if len(errs3) == 0 {
+					if len(errs3) == 0 && len(alts) > 0 {
 						var pos []Term
 						for _, a := range alts {
 							pos = append(pos, not(a))
@@ -814,10 +814,26 @@ func (tr *trans) ret(x *ssa.Return, st State) {
 					}
 				}
 				if !okAny {
+					if ok && imp.Op == "==>" {
+						// nothing of the antecedent can be stated at this return (it speaks about locals that do not
+						// exist yet on this path): the clause does not apply here. It must apply somewhere, though -
+						// checked once all returns are done (a misspelt local must not make a clause vacuous).
+						if tr.checkNowhere == nil {
+							tr.checkNowhere = map[string][]string{}
+						}
+						if _, seen := tr.checkNowhere[label]; !seen {
+							tr.checkNowhere[label] = errs
+						}
+						continue
+					}
 					tr.errs = append(tr.errs, errs...)
 					goal = "false"
 				}
 			}
+			if tr.checkStated == nil {
+				tr.checkStated = map[string]bool{}
+			}
+			tr.checkStated[label] = true
 			tr.oblige("check", fmt.Sprintf("[%s]@ret%d", label, k), implies(reach, goal), x.Pos())
 		}
 	}
